@@ -557,24 +557,7 @@ def r9_counts_are_not_truncated(cx):
         raise AnchorLost("count narrowing sites in the creator: %d" % n)
 
 
-def _ok_payloads(b, call_blk):
-    """locals that hold the Ok value of the Result returned by the call ending block `call_blk` (through `?`, unwrap, expect)"""
-    copies = b.whole_copies({b.term(call_blk)["dest"]["l"]})
-    out = set()
-    for i, t in b.calls(r"Try>::branch$", r"Result::<.*>::(unwrap|expect)$"):
-        if not t["args"] or op_local(t["args"][0]) not in copies or t["args"][0].get("mv", t["args"][0].get("cp", {})).get("p"):
-            continue
-        y = t["dest"]["l"]
-        if call_is(t, r"Try>::branch$"):
-            for blk in b.blocks:
-                for st in blk["s"]:
-                    if st["k"] == "assign" and st["rv"]["k"] == "use":
-                        pl = op_place(st["rv"]["op"])
-                        if pl is not None and pl["l"] == y and any(isinstance(e, dict) and e.get("n") == "Continue" for e in pl.get("p", [])) and not st["lhs"].get("p"):
-                            out.add(st["lhs"]["l"])
-        else:
-            out.add(y)
-    return b.whole_copies(out) if out else out
+_ok_payloads = ok_payloads
 
 
 def _through_tuples(b, vals):
@@ -690,7 +673,14 @@ def r2c_content_address_key_byte(cx):
           "with pack_id_size = U2 every write of the content-address key byte (%d sites) comes after `| 0b0000_0100` (writes reachable without it: lines %s)" % (len(writes), missed))
 
 
+def r11_offset_widths(cx):
+    """'sizes, tables': the width announced for a table of offsets is the width of the total it is bounded by (= C02-R8)"""
+    import c02
+    c02.r8_width_covers(cx, rule="R11")
+
+
 RULES = [
+    ("R11", r11_offset_widths, 3),
     ("R10", r10_stored_positions_are_pack_relative, 4),
     ("R9", r9_counts_are_not_truncated, 5),
     ("R2", r2c_content_address_key_byte, 1),
